@@ -3,6 +3,7 @@ package main
 // Symbolic execution of statements.
 
 import (
+	"sort"
 	"fmt"
 	"go/ast"
 	"go/token"
@@ -30,6 +31,7 @@ type frame struct {
 	loopOrd  map[ast.Node]int
 	contract *Contract
 	depth    int
+	firstVal map[string]*Value // value given to a local at its declaration, by name (first(x) in contracts)
 }
 
 type Exec struct {
@@ -307,6 +309,14 @@ func (x *Exec) declare(n *ast.Ident, v *Value, st *State) {
 		return
 	}
 	v = x.coerce(v, obj.Type())
+	if f := x.fr(); x.dry == 0 && v != nil && v.Tm != nil {
+		if f.firstVal == nil {
+			f.firstVal = map[string]*Value{}
+		}
+		if _, seen := f.firstVal[n.Name]; !seen {
+			f.firstVal[n.Name] = v
+		}
+	}
 	if x.fr().boxed[obj] {
 		ref := x.alloc(st)
 		x.fr().boxRef[obj] = ref
@@ -727,7 +737,17 @@ func (x *Exec) applyLoopHavoc(nh, pre *State, wl *WriteLog, top *Term, mark int,
 	x.vc.assume(Ge(nb, top))
 	nh.allocBase, nh.allocK = nb, 0
 	// variables
+	var wvars []types.Object
 	for o := range wl.vars {
+		wvars = append(wvars, o)
+	}
+	sort.Slice(wvars, func(i, j int) bool {
+		if wvars[i].Pos() != wvars[j].Pos() {
+			return wvars[i].Pos() < wvars[j].Pos()
+		}
+		return wvars[i].Name() < wvars[j].Name()
+	})
+	for _, o := range wvars {
 		if v, ok := pre.env[o]; ok {
 			if x.fr().boxed[o] {
 				continue // boxed: pointer itself does not change; contents are heap writes
@@ -770,7 +790,7 @@ func (x *Exec) applyLoopHavoc(nh, pre *State, wl *WriteLog, top *Term, mark int,
 	for _, w := range ws {
 		have[w.key] = true
 	}
-	for k := range keys {
+	for _, k := range sortedKeys(keys) {
 		if !have[k] {
 			ws = append(ws, heapWrite{k, top, nil}) // dummy ref >= top: filtered by havocHeap
 		}
@@ -778,7 +798,7 @@ func (x *Exec) applyLoopHavoc(nh, pre *State, wl *WriteLog, top *Term, mark int,
 	x.havocHeap(nh, ws, top)
 	// keys written through loop-variant references under `writes_fresh`: only objects that
 	// existed at function entry are known to be unchanged
-	for k := range freshOnly {
+	for _, k := range sortedKeys(freshOnly) {
 		whole := false
 		for _, w := range ws {
 			if w.key == k && w.ref == nil {
@@ -814,7 +834,7 @@ func (x *Exec) applyLoopHavoc(nh, pre *State, wl *WriteLog, top *Term, mark int,
 		x.vc.assume(Forall([]*Term{r}, body, mk("select", "", srt.Rng, nil, cur, r)))
 	}
 	sig := x.havocSig(wl, ws)
-	for k := range freshOnly {
+	for _, k := range sortedKeys(freshOnly) {
 		sig += ";fresh:" + k
 	}
 	nh.env[havocSigObj] = &Value{Tm: Var(sig, BoolS)}
@@ -1212,3 +1232,4 @@ func loopHavocKey(spec *LoopSpec, key string) bool {
 	}
 	return false
 }
+
